@@ -1,11 +1,13 @@
 """C15: concurrent control frames never corrupt the WebSocket frame stream (spec/wsconc/WsConc.tla).
 
-MC      TLC explores every interleaving of the data writer, the control senders and the closer
-        in the model and checks WholeFrames / AfterClose / InOrder / ResultsHonest; five named
-        deviations must each violate an invariant (non-vacuity).
-GEN     Gen_WsConc projects behaviours on the steps a harness can force (begin a call, let a
-        transport operation happen) and emits them as schedules; with a deviation switched on it
-        emits ATTACK schedules that try to force a transport write the contract forbids.
+MC      TLC explores every interleaving of the data writer (whose application may pause with the
+        message open), the control senders, the reader (whose handlers answer the peer's Ping and
+        Close frames) and the closer in the model and checks MsgIntact / WholeFrames / AfterClose /
+        InOrder / ResultsHonest; six named deviations must each violate an invariant (non-vacuity).
+GEN     Gen_WsConc projects behaviours on the steps a harness can force (begin a call, let a frame
+        of the peer reach the reader, let a transport operation happen, let D's application go on)
+        and emits them as schedules; with a deviation switched on it emits ATTACK schedules that
+        try to force a transport write the contract forbids.
 REPLAY  harness/cmd/c15 (built with -race) forces each schedule on a real websocket.Conn over a
         gated net.Conn and records what actually happened.
 TRACE   Trace_WsConc accepts or rejects every recorded execution (code -> model); a rejected
@@ -39,6 +41,14 @@ FAMILIES = {
     "timeout2s":      (60, 1500),
     "atk_timeout":    (25, None),
     "atk_timeout2s":  (25, 300),
+    # the reader: the peer's Ping / Close reach their handlers (default; application's WriteControl) while D
+    # has its message open (application paused: bytes buffered, between two frames; inside a flush)
+    "rdflt":            (90, 1000),
+    "rcust":            (50, None),
+    "rclient":          (70, 800),
+    "rwm":              (40, None),
+    "atk_rdata":        (20, None),
+    "atk_rnolock":      (16, None),     # a handler that writes its answer without the write lock
 }
 THOROUGH_ONLY = {
     "free":           1500,     # every lock hand-off order, not only first-come-first-served
@@ -46,8 +56,10 @@ THOROUGH_ONLY = {
     "atk_nolock_big": 300,
     "timeout2":       1000,
     "atk_timeout2":   300,
+    "rcustbig":       800,
+    "atk_rdata_client": None,
 }
-SIMULATED = {"sim": (4000, 120), "simclient": (1500, 100)}   # cfg -> (behaviours, depth)
+SIMULATED = {"sim": (4000, 120), "simclient": (1500, 100), "simreader": (1500, 140), "simrclient": (800, 120)}   # cfg -> (behaviours, depth)
 
 
 def _sample(cases, n, rnd):
@@ -99,12 +111,24 @@ def _validate(ctx, trace_path, name, chunks=1):
 def _selftest(ctx, recs):
     """Binding self-test: corrupt real recorded executions and require TLC to reject them.
        (1) a control write is moved between a header write and its `extra` (torn frame);
-       (2) a successful control write is moved behind the Close frame (write after close)."""
+       (2) a successful control write is moved behind the Close frame (write after close);
+       (3) the answer a handler wrote on the reading goroutine while D's application had paused with its
+           message open is turned into the final frame of that message (the message writer closed behind D's back)."""
     def twrites(r):
         return [k for k, e in enumerate(r["ev"]) if e["ev"] == "twrite"]
 
-    torn = after = None
+    torn = after = stolen = None
     for r in recs:
+        if stolen is None:
+            ev = r["ev"]
+            for k, e in enumerate(ev):
+                if e["ev"] == "twrite" and e["proc"] == "R" and e["ok"] and e["cls"] == "pong":
+                    nxt = [x for x in ev[k + 1:] if x.get("proc") == "D" and x["ev"] in ("twrite", "resume", "ret", "begin")]
+                    if nxt and nxt[0]["ev"] == "resume":      # D's application had paused with its message open
+                        m = json.loads(json.dumps(r))
+                        m["ev"][k]["cls"], m["ev"][k]["part"] = "cont+fin", "hdr"
+                        stolen = (m, r)
+                        break
         tw = twrites(r)
         ev = r["ev"]
         for a, b in zip(tw, tw[1:]):
@@ -128,30 +152,35 @@ def _selftest(ctx, recs):
                 e = m["ev"].pop(pk[0])
                 m["ev"].insert(cl[0], e)      # the close moved one down: this is right behind it
                 after = (m, r)
-        if torn and after:
+        if torn and after and stolen:
             break
-    if not torn or not after:
+    if not torn or not after or not stolen:
         raise vlib.Broken("binding self-test: no recorded execution with a header+extra pair and a control write / "
-                          "a ping before a close (the replay did not exercise the property)")
+                          "a ping before a close / an answer of the reader while D's application paused "
+                          "(the replay did not exercise the property)")
     p = os.path.join(ctx.out, "selftest.ndjson")
     with open(p, "w") as f:
-        for r in (torn[0], torn[1], after[0], after[1]):
+        for r in (torn[0], torn[1], after[0], after[1], stolen[0], stolen[1]):
             f.write(json.dumps(r) + "\n")
     hw, _ = _validate(ctx, p, "selftest")
-    ok = hw[0][0] < hw[0][1] and hw[1][0] == hw[1][1] and hw[2][0] < hw[2][1] and hw[3][0] == hw[3][1]
+    ok = hw[0][0] < hw[0][1] and hw[1][0] == hw[1][1] and hw[2][0] < hw[2][1] and hw[3][0] == hw[3][1] and \
+        hw[4][0] < hw[4][1] and hw[5][0] == hw[5][1]
     if not ok:
         raise vlib.Broken("binding self-test failed: corrupted traces must be rejected and their originals accepted, got %r" % (hw,))
     ctx.notes["binding_selftest"] = {
         "torn_frame_trace_rejected_at_event": hw[0][0] + 1, "write_after_close_trace_rejected_at_event": hw[2][0] + 1,
+        "data_frame_written_by_the_reader_trace_rejected_at_event": hw[4][0] + 1,
         "originals_accepted": True}
 
 
 def run(ctx):
     t = ctx.tier
     quick = t == "quick"
-    ctx.rule = ("MC: every interleaving of 1 data writer (3 frames, one with `extra`) x ping sender x close sender x closer and of three "
-                "more programs; GEN: every schedule (sequence of call begins and transport operations) the model allows for the cfg "
-                "programs under eager internal steps, plus attack schedules from the five deviation models, sampled by seed in the quick "
+    ctx.rule = ("MC: every interleaving of 1 data writer (3 frames, one with `extra`) x ping sender x close sender x closer and of "
+                "more programs (among them: the reader answering the peer's Ping and Close by a default and an application handler "
+                "while the writer's application pauses with its message open); GEN: every schedule (sequence of call begins and transport operations) the model allows for the cfg "
+                "programs under eager internal steps (call begins, frames of the peer reaching the reader, transport operations, the "
+                "writer's application going on), plus attack schedules from the six deviation models, sampled by seed in the quick "
                 "tier with all decisive schedules kept; each is forced on a real Conn over a gated transport under -race and the recorded "
                 "execution is accepted by Trace_WsConc; distinct = distinct schedule JSON")
     ctx.exhaustive = not quick
@@ -160,6 +189,10 @@ def run(ctx):
         "give up with the write timeout error; time itself is not modelled, giving up is possible whenever such a call waits); "
         "a call that began after the Close frame and gave up on its short deadline counts as failed although its error is not close-sent",
         "one data writer (the package forbids more), compression off, write buffer 256 bytes, server and client role",
+        "the reader writes only from the handlers of Ping and Close frames of the peer (default handlers of the package, whose "
+        "deadline is the package's one second: they may give up and do not show their result, and handlers of the application "
+        "that call WriteControl without deadline); the peer's frames are well-formed; the application pauses only between two "
+        "calls on its open message (after NextWriter, after a Write)",
         "the transport's Write is atomic (one call = one contiguous byte range) and fails once Conn.Close closed it",
         "lock hand-off among several waiters is the Go runtime's choice: TLC covers all orders in the model, the replay the ones "
         "the runtime produces (the generator predicts first-come-first-served; a wrong prediction only loses coverage)",
@@ -184,9 +217,11 @@ def run(ctx):
           ("MC_WsConc_nolock.cfg", "WholeFrames"), ("MC_WsConc_nocheck.cfg", "AfterClose"),
           ("MC_WsConc_split.cfg", "WholeFrames"), ("MC_WsConc_nolatch.cfg", "AfterClose"),
           ("MC_WsConc_timeout.cfg", None), ("MC_WsConc_timeoutrel.cfg", "WholeFrames"),
-          ("MC_WsConc_timeoutrel_lock.cfg", "LockOK")]
+          ("MC_WsConc_timeoutrel_lock.cfg", "LockOK"),
+          ("MC_WsConc_reader.cfg", None), ("MC_WsConc_rdata.cfg", "MsgIntact")]
     if not quick:
-        mc += [("MC_WsConc_twoclose.cfg", None), ("MC_WsConc_big.cfg", None), ("MC_WsConc_timeoutbig.cfg", None)]
+        mc += [("MC_WsConc_twoclose.cfg", None), ("MC_WsConc_big.cfg", None), ("MC_WsConc_timeoutbig.cfg", None),
+               ("MC_WsConc_readerbig.cfg", None), ("MC_WsConc_reader2.cfg", None)]
     fams = dict((f, n[0] if quick else n[1]) for f, n in FAMILIES.items())
     if not quick:
         fams.update(THOROUGH_ONLY)
@@ -202,7 +237,7 @@ def run(ctx):
         ctx.tlc(SUB, "Gen_WsConc", "Gen_WsConc_%s.cfg" % f, cases_to=p, count_states=False, workers=2, timeout=1500)
         return f, p
 
-    with ThreadPoolExecutor(8) as ex:
+    with ThreadPoolExecutor(10) as ex:
         mcf = [ex.submit(run_mc, j) for j in mc]
         genf = [ex.submit(run_gen, f) for f in fams]
         for f in mcf:
@@ -243,7 +278,7 @@ def run(ctx):
         raise vlib.Broken("replayer returned %d results for %d schedules" % (len(res), len(case_lines)))
 
     # ---- TLC decides on every recorded execution
-    hw, recs = _validate(ctx, os.path.join(trdir, "trace.ndjson"), "trace", chunks=1 if quick else 6)
+    hw, recs = _validate(ctx, os.path.join(trdir, "trace.ndjson"), "trace", chunks=2 if quick else 6)
     if len(hw) != len(res):
         raise vlib.Broken("%d recorded schedules for %d results" % (len(hw), len(res)))
     rejected = [k for k, (a, b) in enumerate(hw) if a != b]
@@ -263,7 +298,7 @@ def run(ctx):
             failing[k] = r.get("what") or ""
     for k in rejected:
         why = ("Trace_WsConc rejects the recorded execution at event %d of %d: %s (no behaviour of the specification that satisfies "
-               "WholeFrames/AfterClose/InOrder produces it)" % (hw[k][0] + 1, hw[k][1], json.dumps(recs[k]["ev"][hw[k][0]])))
+               "MsgIntact/WholeFrames/AfterClose/InOrder produces it)" % (hw[k][0] + 1, hw[k][1], json.dumps(recs[k]["ev"][hw[k][0]])))
         if k in failing:
             failing[k] += " | " + why
         else:
@@ -322,9 +357,16 @@ def run(ctx):
         "attack_schedules": sum(1 for c in case_lines if '"attack":true' in c),
         "decisive_schedules": sum(1 for c in case_lines if '"decisive":true' in c),
         "race_reports": sum(i.get("race_reports", 0) for i in infos),
+        "frames_of_the_peer_handled_by_the_reader": sum(i.get("rd_calls", 0) for i in infos),
+        "of_them_with_D_paused_with_its_message_open": sum(i.get("rd_open_app", 0) for i in infos),
+        "of_them_with_D_inside_a_flush": sum(i.get("rd_open_write", 0) for i in infos),
     }
     ctx.notes["trace_validation"] = {"schedules_accepted": len(hw) - len(rejected), "schedules_rejected": len(rejected),
                                      "rejected_only_by_the_specification": tlc_only,
                                      "failed_once_but_not_when_forced_again": unreproduced}
     if ctx.notes["replay"]["with_header_and_extra_on_the_wire"] == 0:
         raise vlib.Broken("no recorded execution wrote a frame in two transport writes: the replay did not exercise the property")
+    if clean_run and (ctx.notes["replay"]["of_them_with_D_paused_with_its_message_open"] == 0
+                      or ctx.notes["replay"]["of_them_with_D_inside_a_flush"] == 0):
+        raise vlib.Broken("no frame of the peer reached the reader while the data writer had its message open "
+                          "(application paused / inside a flush): the replay did not exercise the reader's handlers")
